@@ -158,6 +158,12 @@ theorem tvStep_step {nd : Node} (c : Cfg) (inv : NodeInv nd) (op : Op) (hr : op.
     unfold Node.indexPrepareE
     cases c.prepareSwapsEmpty <;> exact tvStep_of_eq rfl rfl
   | indexFlush sh => exact tvStep_setShard _ _ _
+  | metaFlushFail k =>
+    obtain ⟨a, b⟩ := metaFlushPrefix_tv inv.md k
+    refine ⟨by show nd.seqMem.tagValue ≤ (nd.metaFlushPrefix k).seqMem.tagValue; rw [a]; exact Nat.le_refl _, ?_⟩
+    intro tk v j h
+    have h' : (nd.metaFlushPrefix k).tagValue.lookup tk v = some j := h
+    rw [b] at h'; exact Or.inl h'
   | reopen => cases hr
   | metaFlushCrash k => cases hr
   | indexFlushCrash sh k => cases hr
@@ -400,5 +406,11 @@ theorem wtInv_step {c : Cfg} (hc : c.seqWriteThrough = true) {nd : Node} (inv : 
     refine ⟨rfl, ?_⟩
     show IdxTvBelow (nd.indexFlushPrefix sh k).recover nd.seqMmap.tagValue
     rw [w.synced]; exact idx_recover (idx_indexFlushPrefix w.idx sh k)
+  | metaFlushFail k =>
+    obtain ⟨a, b⟩ := metaFlushPrefix_seq nd k w.synced
+    obtain ⟨_, _, _, s, _⟩ := metaFlushPrefix_spec inv.md k
+    refine ⟨a, ?_⟩
+    show IdxTvBelow (nd.metaFlushPrefix k) (nd.metaFlushPrefix k).seqMem.tagValue
+    rw [b]; exact idxTvBelow_shards w.idx s
 
 end LinVerif.IdAssign
